@@ -73,6 +73,10 @@ def session(concepts, seed, sid):
             seeds = [a, b, c, a]
             rec('upset_union', lambda: g(lat.upset_union(seeds)))
             rec('downset_union', lambda: g(lat.downset_union(seeds)))
+            # a set of seeds: its iteration order is the caller's business, the result is not
+            rec('upset_union-set', lambda: g(lat.upset_union(set(seeds))))
+            rec('downset_union-frozenset', lambda: g(lat.downset_union(frozenset(seeds))))
+            rec('join-set', lambda: g([lat.join(set(seeds)), lat.meet(set(seeds))]))
             rec('attributes', lambda: list(a.attributes())[:20] if len(a.intent) <= 8 else None)
             rec('minimal', lambda: a.minimal())
         rec('relations', lambda: repr(ctx.relations()))
@@ -80,6 +84,10 @@ def session(concepts, seed, sid):
         rec('relations-text', lambda: ctx.relations().tostring())
         rec('graphviz', lambda: ''.join(lat.graphviz().body))
         rec('definition', lambda: repr(ctx.definition()))
+        rec('fromdict-roundtrip', lambda: str(C.fromdict(ctx.todict()).lattice))
+        rec('fromdict-raw', lambda: str(C.fromdict(ctx.todict(), raw=True).lattice))
+        rec('intension-set-arg', lambda: ctx.intension(set(objects[:3])))
+        rec('getitem-set-arg', lambda: ctx[frozenset(properties[:2])])
         rec('concepts', lambda: [(c.objects, c.properties) for c in concepts.algorithms.get_concepts(ctx)])
         rec('fcbo_dual', lambda: [(e.members(), i.members()) for e, i in concepts.algorithms.fcbo_dual(ctx)])
     if kind == 1:
